@@ -352,6 +352,16 @@ pub fn c08_scenario(ch: &mut Chooser, thorough: bool) -> Exec {
                 }
             }
         }
+        // ---- hold called again on the held link, right after a manual delivery and before
+        // the step: everything still in flight, the hand-scheduled messages included, is held
+        if link.held && !suffix && !from_host && link.q.iter().any(|m| m.stat == MStat::At(k)) && ch.dev_flag("hold_again_before_the_step") {
+            hold_now(&net, false);
+            obs.push(format!("step {k}: hold(A,B) again"));
+            for m in &mut link.q {
+                m.stat = MStat::Held;
+            }
+            feats.push("re-hold");
+        }
         // ---- links view must show exactly the in-flight set (checked before the step)
         if !from_host {
             let got = link_msgs(&net.sim, net.ips[0], net.ips[1]).len();
